@@ -5,7 +5,7 @@ ROOT = os.path.dirname(os.path.dirname(os.path.abspath(__file__)))
 BOOK_NOTE = ('Assumed: soundness of Verus/Z3; vstd specifications of Vec/BTreeMap/Option; the assumed contracts listed in DESIGN.md 3.3 (BTreeMap::first_key_value returns a minimum key, '
              'core::cmp::min, core::array::from_fn, float operations total); the syntactic rewrite rules R1-R14 of DESIGN.md 3.1 (every application is listed in the evidence); '
              'validity preconditions of the property statement (ids exist, volumes >= 1, prices in range, totals < 2^32, clock monotone, clock discipline). Machine integers are NOT idealised. '
-             'save_json/load_json, Display impls and get_orders are not under contract.')
+             'save_json/load_json and Display impls are not under contract.')
 PY_NOTE = BOOK_NOTE + ' Additionally assumed (stand-ins, listed in the evidence): PyO3 types are opaque; to_pyarray yields the slice elements in order; PyValueError::new_err / OrderError::to_string are opaque; Option::filter keeps the value iff the predicate holds; Xoroshiro128StarStar is an opaque RngCore.'
 KANI_NOTE = 'Assumed: soundness of Kani 0.68 / CBMC 6.11; every RngCore output is arbitrary (SymRng) and every Distribution sample an arbitrary finite f64 (AnyDist), which covers all generators and distributions; stubs = the contracts of Env::place_order / cancel_order / order_status / OrderBook::mid_price (proved in the Verus units); f64::tanh modelled as sign-preserving, |y| <= 1, |y| >= 0.99 for |x| >= 3; termination is not proved by Kani; bounded harnesses are labelled bounded and never counted as proved.'
 CHECKS = {
